@@ -124,11 +124,16 @@ pub fn read_der(p: PathBuf) -> Result<Vec<u8>> {
 
 /// A raw QUIC connection with explicit identity material (None = no client certificate).
 pub async fn raw_connect(addr: SocketAddr, ca_der: &[u8], identity: Option<(Vec<u8>, Vec<u8>)>) -> Result<Connection> {
+    raw_connect_chain(addr, ca_der, identity.map(|(c, k)| (vec![c], k))).await
+}
+
+/// like `raw_connect`, presenting an arbitrary certificate chain
+pub async fn raw_connect_chain(addr: SocketAddr, ca_der: &[u8], identity: Option<(Vec<Vec<u8>>, Vec<u8>)>) -> Result<Connection> {
     let mut roots = RootCertStore::empty();
     roots.add(&Certificate(ca_der.to_vec()))?;
     let builder = rustls::ClientConfig::builder().with_safe_defaults().with_root_certificates(roots);
     let mut crypto = match identity {
-        Some((cert, key)) => builder.with_client_auth_cert(vec![Certificate(cert)], PrivateKey(key))?,
+        Some((chain, key)) => builder.with_client_auth_cert(chain.into_iter().map(Certificate).collect(), PrivateKey(key))?,
         None => builder.with_no_client_auth(),
     };
     crypto.alpn_protocols = vec![b"hq-29".to_vec()];
